@@ -798,9 +798,12 @@ func checkCase(c Case, o *vt.Obs) error {
 	var gerr error
 	var wg sync.WaitGroup
 	wg.Add(1)
+	tStart := time.Now()
+	var tGo time.Duration
 	go func() {
 		defer wg.Done()
 		gres, gerr = runGo(dir, len(c.Progs))
+		tGo = time.Since(tStart)
 	}()
 
 	type progRes struct {
@@ -834,7 +837,11 @@ func checkCase(c Case, o *vt.Obs) error {
 			prs[i].res = append(prs[i].res, runVM(nf.Script, off, initOff, call.Args, pr.Funcs[call.F].Results[0].Type))
 		}
 	}
+	tNeo := time.Since(tStart)
 	wg.Wait()
+	if os.Getenv("C14_TIMING") != "" {
+		fmt.Fprintf(os.Stderr, "c14 timing: %d programs, neo-go compile+VM %v, go build+run %v\n", len(c.Progs), tNeo, tGo)
+	}
 	if gerr != nil {
 		return gerr
 	}
